@@ -204,6 +204,39 @@ def make_det_recipe(rng, tier):
                   point_penalty_scale=float(rng.choice([0.5, 1.0, 2.0])),
                   min_segment_length=m, max_segment_length=int(rng.integers(m, 40)))
         nmin = m
+    # the default depends on the shape of the training data only, whatever scorer is plugged in (univariate
+    # per-column scores, inherently multivariate ones with a single output column, user-defined ones)
+    r2 = np.random.default_rng(int(rng.integers(2 ** 31)))
+    slot = {"PELT": "cost", "SeededBinarySegmentation": "change_score", "MovingWindow": "change_score",
+            "CircularBinarySegmentation": "anomaly_score"}.get(det)
+    if slot and r2.random() < 0.6:
+        k = ["L2Cost", "GaussianVarCost", "GaussianCovCost", "L1MV", "HashMV", "CUSUM"][int(r2.integers(6))]
+        need = 1
+        if k == "L2Cost":
+            sc = S("L2Cost", param=None)
+        elif k == "GaussianVarCost":
+            sc, need = S("GaussianVarCost", param=None), 2
+        elif k == "GaussianCovCost":
+            sc, need = S("GaussianCovCost", param=None), p + 1
+        elif k == "L1MV":
+            sc = S("L1Cost", param=None, multivariate=True)
+        elif k == "CUSUM" and slot == "change_score":
+            sc = S("CUSUM")
+        elif slot == "change_score":
+            sc = S("HashChangeScore", seed=int(r2.integers(1000)), modulus=7, minsize=1, multivariate=True)
+        elif slot == "anomaly_score":
+            sc = S("HashLocalAnomalyScore", seed=int(r2.integers(1000)), modulus=7, multivariate=True, signed=False)
+        else:
+            sc = S("L2Cost", param=None)
+        kw[slot] = sc
+        if det == "MovingWindow":
+            kw["bandwidth"] = max(kw["bandwidth"], need)
+            nmin = 2 * kw["bandwidth"]
+        else:
+            kw["min_segment_length"] = max(kw["min_segment_length"], need)
+            nmin = 2 * kw["min_segment_length"]
+            if "max_interval_length" in kw:
+                kw["max_interval_length"] = max(kw["max_interval_length"], nmin)
     n = int(rng.integers(nmin, max(nmin + 1, nmax)))
     n2 = int(rng.integers(nmin, max(nmin + 1, nmax)))
     X, _ = gen_data(rng, n, p, "noise" if rng.random() < 0.5 else "mean_changes")
@@ -220,10 +253,16 @@ def det_case(ctx, r):
     ctx.case()
     ctx.stat("detector_fits")
     ctx.stat(f"det[{det}]")
+    for slot in ("cost", "change_score", "anomaly_score"):
+        if isinstance(kw.get(slot), dict):
+            ctx.stat(f"plugged_scorer[{kw[slot]['cls']}{', p>=2' if p >= 2 else ''}]")
     label = f"{short(spec)} on X[{n}x{p}]"
     try:
         d = build(spec).fit(X)
     except Exception as ex:
+        if isinstance(ex, RuntimeError) and "GaussianCovCost" in str(spec):
+            ctx.stat("documented_runtimeerror")  # sample covariance not positive definite (C01 / C14)
+            return
         ctx.violation(sub, "fit-exception", f"{label}: fit raised {type(ex).__name__}: {ex}", r)
         return
 
